@@ -1276,12 +1276,32 @@ func (eng) Execute(mode string, c *hx.Case) (*hx.Result, error) {
 		return execAssign(c)
 	case "deploy":
 		return execDeploy(c)
-	case "ticks":
-		return execTicks(c)
-	default:
-		return execHistory(mode, c)
 	}
+	if alreadyFailing {
+		// This worker was started by the supervisor after an earlier worker of the SAME run died or hung: the run already
+		// carries a violation. Only then a case gets a bound of its own, to report a tree that hangs in many cases in
+		// minutes instead of hours. It can sharpen a failing run, never fail a passing one.
+		t := time.AfterFunc(20*time.Second, func() {
+			fmt.Fprintf(os.Stderr, "case %s exceeded 20 s in a run that already failed: hang / livelock, worker exits\n", c.Name)
+			os.Exit(3)
+		})
+		defer t.Stop()
+	}
+	if pStr(c, "kind") == "ticks" {
+		return execTicks(c)
+	}
+	return execHistory(mode, c)
 }
+
+// alreadyFailing: hx's supervisor restarts the worker with -from N (N > 0) only after a worker died or was killed
+var alreadyFailing = func() bool {
+	for i, a := range os.Args {
+		if (a == "-from" || a == "--from") && i+1 < len(os.Args) && os.Args[i+1] != "0" {
+			return true
+		}
+	}
+	return false
+}()
 
 func main() {
 	// Descriptors of table files written by a database stay open in this process after the tables are gone (they show
